@@ -9,6 +9,7 @@ import (
 	"math"
 	"net/http"
 	"net/url"
+	"os"
 	"sort"
 	"strings"
 	"sync"
@@ -160,7 +161,7 @@ func genC26(t *rapid.T) c26Case {
 	if big {
 		c.Servers = 1
 		c.MaxBatch = rapid.SampledFrom([]int{5, 50, 50}).Draw(t, "bigmaxbatch")
-		nKeys, nDS, maxOps = 1, rapid.SampledFrom([]int{1, 1, 2}).Draw(t, "bigds"), 14
+		nKeys, nDS, maxOps = 1, rapid.SampledFrom([]int{1, 1, 2}).Draw(t, "bigds"), 16
 		forms = []int{0, 0, 0, 0, 0, 2}
 	}
 	if vkit.Thorough() && !big {
@@ -168,10 +169,10 @@ func genC26(t *rapid.T) c26Case {
 	}
 	q := c.BatchTimeout / 4
 	opGen := rapid.Custom(func(t *rapid.T) c26Op {
-		kind := rapid.IntRange(0, 9).Draw(t, "opkind")
-		advLimit := 6
+		kind := rapid.IntRange(0, 19).Draw(t, "opkind")
+		advLimit := 13
 		if big {
-			advLimit = 8
+			advLimit = 18
 		}
 		if kind > advLimit {
 			a := rapid.IntRange(0, 5).Draw(t, "advkind")
@@ -186,13 +187,13 @@ func genC26(t *rapid.T) c26Case {
 		}
 		op := c26Op{Op: "enq"}
 		op.Srv = rapid.IntRange(0, c.Servers-1).Draw(t, "srv")
-		if rapid.IntRange(0, 149).Draw(t, "dead") == 0 {
+		if rapid.IntRange(0, 149).Draw(t, "dead") == 61 {
 			op.Srv = c.Servers
 		}
 		op.Form = rapid.SampledFrom(forms).Draw(t, "form")
 		op.Key = rapid.IntRange(0, nKeys-1).Draw(t, "key")
 		op.DS = rapid.IntRange(0, nDS-1).Draw(t, "ds")
-		if !big && rapid.IntRange(0, 79).Draw(t, "dotds") == 0 {
+		if !big && rapid.IntRange(0, 99).Draw(t, "dotds") == 37 {
 			op.DS = c26PlainDatasets + rapid.IntRange(0, 1).Draw(t, "dot")
 		}
 		op.Raw = rapid.Bool().Draw(t, "raw")
@@ -202,15 +203,15 @@ func genC26(t *rapid.T) c26Case {
 		s := rapid.IntRange(0, 99).Draw(t, "sizeclass")
 		if big {
 			switch {
-			case s < 15:
+			case s < 8:
 				op.Size = 0
-			case s < 25:
+			case s < 15:
 				op.Size = 100_000
-			case s < 55:
+			case s < 60:
 				op.Size = 833_400 // six of these exceed 5 MB
-			case s < 75:
+			case s < 80:
 				op.Size = c26MaxEvent + rapid.IntRange(-90, 30).Draw(t, "delta")
-			case s < 85:
+			case s < 90:
 				op.Size = 999_000
 			default:
 				op.Size = rapid.SampledFrom([]int{1_000_200, 1_500_000, 5_100_000}).Draw(t, "over")
@@ -242,7 +243,11 @@ func genC26(t *rapid.T) c26Case {
 		}
 		return op
 	})
-	c.Ops = rapid.SliceOfN(opGen, 1, maxOps).Draw(t, "ops")
+	minOps := 1
+	if big {
+		minOps = 6
+	}
+	c.Ops = rapid.SliceOfN(opGen, minOps, maxOps).Draw(t, "ops")
 	c.StopAfterLast = rapid.SampledFrom([]int64{0, 0, 1, q, 4 * q, 6 * q}).Draw(t, "stopafter")
 	return c
 }
@@ -750,9 +755,14 @@ func execC26(c c26Case) vkit.Result {
 			Ops: []c26Op{{Op: "enq"}}}
 		c26Run(w, c26Prepare(w), false)
 	})
+	startWall := time.Now()
 	prep := c26Prepare(c)
 	var obs c26Obs
 	txBubble(c26T, func() { obs = c26Run(c, prep, true) })
+	if os.Getenv("C26_SLOW") != "" && time.Since(startWall) > 500*time.Millisecond {
+		cj, _ := json.Marshal(c)
+		fmt.Fprintf(os.Stderr, "C26_SLOW %v %s\n", time.Since(startWall), cj)
+	}
 	c26Judge(c, prep, obs, &res)
 	return res
 }
